@@ -262,7 +262,7 @@ class TypedNode(Node):
         if isinstance(child, self._tree.__class__):
             if deep is None:
                 deep = True
-            topnodes = child._root.children
+            topnodes = child._root.children.copy()  # don't modify the source tree
             if isinstance(before, (int, TypedNode)) or before is True:
                 topnodes.reverse()
             for n in topnodes:
